@@ -25,7 +25,8 @@ def source_desc(draw, nfilt, min_data=0, name=None):
         if sum(1 for f in flags if f in (1, 4)) >= min_data:
             break
         flags[j] = 1
-    flux = [draw(gen.logfloat(1e-3, 1e3)) for _ in flags]
+    # (a flag-4 point carries log10 of the flux in mJy: zero or negative for anything at or below 1 mJy)
+    flux = [draw(st.sampled_from([-2.75, -0.3, 0., 0.4, 1.9])) if f == 4 else draw(gen.logfloat(1e-3, 1e3)) for f in flags]
     err = [draw(gen.logfloat(1e-3, 0.5)) if f in (1, 4) else draw(st.sampled_from([0., 0.5, 1.])) for f in flags]
     src = {'name': name or draw(src_names), 'x': draw(st.sampled_from([0., 9.8925, 271.25])),
            'y': draw(st.sampled_from([0., -0.342])), 'flags': flags, 'flux': flux, 'err': err,
